@@ -105,6 +105,8 @@ def skeleton_rules(ctx, F):
         # the second component of `split_first()` of the current list, taken directly or through `and_then(|k| k.split_first())`
         splits = any(lib.calls_named(cb_, r"slice::<impl \[T\]>::split_first$") for cb_ in F.with_closures(nx))
         is_rest = splits and re.search(r"split_first\([^()]*self\.kids.*\)@Some\.0\.1|and_then\(\*?self\.kids,closure\([^()]*\)\)@Some\.0\.1", src) is not None
+        # (`self.kids = Some(self.stack.pop()?)` is the resume store written with `?`: a popped entry)
+        is_rest = is_rest or re.search(r"Vec::<[^()]*>::pop\(|(^|[^\w])pop\([^()]*self\.stack", src) is not None
         ctx.ob(R, "advance-is-the-rest|next", is_rest, "self.kids = Some(rest of the current list): %s" % src[:80], nx.where(x[2]["ln"]),
                what="PageTreeIter::next installs `%s` as the current list, which is not the rest of the list it is walking: kids that are also pending on the stack are enumerated twice" % src[:120])
     if adv and desc and pushes and pops:
